@@ -189,7 +189,7 @@ theorem not_undef : ∀ (t : Ty) (v : Val), hasTy v t = true → mayBeUndef t = 
     simp only [ser]
     exact variant_not_undef _ _ vs h.2 hu
   | .option _, _, _, hu => by simp [mayBeUndef] at hu
-  | .unit, _, _, hu => by simp [mayBeUndef] at hu
+  | .unit, v, h, _ => by cases v <;> simp [hasTy] at h; simp [ser, isUndef, sNil, sUndefined]
   | .unitStruct n, v, h, hu => by
     cases v <;> simp [hasTy] at h
     subst h
@@ -293,7 +293,8 @@ theorem sigCount_le (l : Bytes) : sigCount l ≤ l.length := by
 theorem deInt_big (k : IntTy) (neg : Bool) (d : Bytes) (hl : d.length ≤ 8) (v : Int)
     (hv : (if neg then -((magVal d : Nat) : Int) else ((magVal d : Nat) : Int)) = v) (hr : k.inRange v = true) :
     deInt k (.big neg d) = .ok (.int k v) := by
-  have h8 : ¬ sigCount d > 8 := by have := sigCount_le d; omega
+  have h8 : ¬ sigCount d > maxBigDigits := by
+    have := sigCount_le d; simp only [maxBigDigits, Gen.C15_BIG_MAX_DIGITS]; omega
   simp only [deInt, h8, if_false, magVal_take_sigCount, hv, hr, if_true]
 
 theorem deInt_serInt (k : IntTy) (i : Int) (h : k.inRange i = true) : deInt k (serInt k i) = .ok (.int k i) := by
